@@ -9,6 +9,7 @@ import Dashu.Proofs.Conv.Kind
 import Dashu.Proofs.Conv.ModeFlag
 import Dashu.Proofs.Conv.ToFloat
 import Dashu.Proofs.Conv.ToFloatHalf
+import Dashu.Proofs.Conv.RangeExit
 /-
   C06 — Conversions are lossless or refused; lossy ones are correctly rounded and say so.
 
@@ -788,13 +789,41 @@ theorem conv_constants_regenerated :
     modes — of the last of `p` digits, side condition of the directed modes, flag `none` iff exact, `AddOne` /
     `SubOne` only above / below the exact value). -/
 
-/-- Tie A: the no-shift test and the shift amount the mirrored quotient stage CALLS are the text regenerated from
-    the source on every run (`Dashu/Gen/ConvToFloat.lean`): `num_digits >= precision + den_digits`,
-    `(precision + den_digits) - num_digits`; a change of either expression in /repo breaks this theorem and the
-    proof of `rbig_to_float_quotient_stage`. -/
+/-- Tie A: the digit sum, the no-shift test and the shift amount the mirrored quotient stage CALLS are the text
+    regenerated from the source on every run (`Dashu/Gen/ConvToFloat.lean`; round 6, /repo 43925c0):
+    `need_digits = precision.saturating_add(den_digits)`, `num_digits >= need_digits`, `need_digits - num_digits`;
+    a change of any of the three expressions in /repo breaks this theorem and the proof of
+    `rbig_to_float_quotient_stage`. -/
 theorem rbig_to_float_decisions_regenerated (nd dd p : Nat) :
+    Dashu.Gen.ConvToFloat.to_float_need_digits dd p = min (p + dd) (2 ^ 64 - 1) ∧
+    Dashu.Gen.ConvToFloat.to_float_no_shift nd dd p = decide (nd ≥ min (p + dd) (2 ^ 64 - 1)) ∧
+    Dashu.Gen.ConvToFloat.to_float_shift nd dd p = min (p + dd) (2 ^ 64 - 1) - nd := ⟨rfl, rfl, rfl⟩
+
+/-- below the saturation point (`precision + den_digits ≤ usize::MAX`) the decisions are the plain ones -/
+theorem rbig_to_float_decisions_unsaturated (nd dd p : Nat) (hov : p + dd < 2 ^ 64) :
     Dashu.Gen.ConvToFloat.to_float_no_shift nd dd p = decide (nd ≥ p + dd) ∧
-    Dashu.Gen.ConvToFloat.to_float_shift nd dd p = (p + dd) - nd := ⟨rfl, rfl⟩
+    Dashu.Gen.ConvToFloat.to_float_shift nd dd p = (p + dd) - nd :=
+  to_float_decisions_unsaturated nd dd p hov
+
+/-- at and beyond the saturation point (the input class of the repaired defect: before 43925c0 the sum wrapped in a
+    release build and a wrong number came back) the code takes the shift branch and asks for
+    `usize::MAX − num_digits` further digits — far more than `precision`, so no digit of the quotient is missing; the
+    allocation of that many digits is what fails (driver: `AllocTooMuch`, compared per case) -/
+theorem rbig_to_float_saturated_shift (nd dd p : Nat) (hov : 2 ^ 64 ≤ p + dd + 1) (hnd : nd < 2 ^ 64 - 1) :
+    Dashu.Gen.ConvToFloat.to_float_no_shift nd dd p = false ∧
+    Dashu.Gen.ConvToFloat.to_float_shift nd dd p = 2 ^ 64 - 1 - nd := by
+  have e : Dashu.Gen.ConvToFloat.to_float_need_digits dd p = 2 ^ 64 - 1 := by
+    unfold Dashu.Gen.ConvToFloat.to_float_need_digits
+    exact Nat.min_eq_right (by omega)
+  unfold Dashu.Gen.ConvToFloat.to_float_no_shift Dashu.Gen.ConvToFloat.to_float_shift
+  rw [e]
+  exact ⟨by simp only [decide_eq_false_iff_not]; omega, rfl⟩
+
+example : 2 ^ 64 ≤ (2 ^ 64 - 1) + 0 + 1 ∧ (1 : Nat) < 2 ^ 64 - 1 := by decide
+
+/- The hypothesis `hov : p + ilogB B den < 2 ^ 64` of the theorems below is no longer there for a defect (round 5: the
+   unchecked `usize` addition; repaired by 43925c0) — it stays for the Nat/usize gap only: at a saturated sum the
+   model asks for `2^64 − 1 − num_digits` digits like the code, where the code cannot allocate and panics. -/
 
 /-- `assert!(precision > 0)` -/
 theorem rbig_to_float_precision_zero_panics (B : Nat) (m : Float.Mode) (c : Coarse) (num : Int) (den : Nat) :
@@ -810,12 +839,12 @@ theorem rbig_to_float_zero (B : Nat) (m : Float.Mode) (c : Coarse) (den p : Nat)
 /-- the quotient stage: `num·B^shift = q·den + r` with `|r| < den`, and the scaled quotient has at least `p`
     digits (so its integer rounding is never coarser than the requested precision) -/
 theorem rbig_to_float_quotient_stage (B : Nat) (hB : 2 ≤ B) (num : Int) (den p : Nat) (hn : num ≠ 0) (hd : 0 < den)
-    (hp : 1 ≤ p) :
+    (hp : 1 ≤ p) (hov : p + ilogB B (den : Int) < 2 ^ 64) :
     num * ((B ^ (toFloatQuot B num den p).1 : Nat) : Int) =
         (toFloatQuot B num den p).2.1 * (den : Int) + (toFloatQuot B num den p).2.2 ∧
       |(toFloatQuot B num den p).2.2| < (den : Int) ∧
       den * B ^ (p - 1) ≤ num.natAbs * B ^ (toFloatQuot B num den p).1 :=
-  toFloatQuot_spec B hB num den p hn hd hp
+  toFloatQuot_spec B hB num den p hn hd hp hov
 
 /-- **every mode: correct whenever the first-rounded quotient fits the precision** (no second rounding happens) -/
 theorem rbig_to_float_correct_when_fits (B : Nat) (hB : 2 ≤ B) (m : Float.Mode) (c : Coarse) (num : Int) (den p : Nat)
@@ -932,6 +961,105 @@ example : (2 * |(splitDigits 10 (FRepr.new 10 (toFloatN1 10 .halfAway 6247 5 2) 
     (FRepr.new 10 (toFloatN1 10 .halfAway 6247 5 2) 0).digits 10 - 2 = 2 ∧
     ratToFloat 10 .halfAway coarseNone 6247 5 2 = .ok (⟨12, 2⟩, some .NoOp) ∧
     2 * |(splitDigits 10 (FRepr.new 10 (toFloatN1 10 .halfAway 6248 5 2) 0).signif 1).2| = ((10 ^ 1 : Nat) : Int) := by
+  decide +kernel
+
+/-! ## Round 6 — the range test in front of `FBig/Repr::to_f32 / to_f64` (/repo 1349a4b, `Repr::exponent_out_of_range`)
+    MIRRORED (`Model/Conv/Base.lean`: `exponentOutOfRange` CALLS the regenerated decision text, `rangeExit`,
+    `fbigToFloatCode`, `fbigToFloatBaseCode`, `fbigTryToFloatCode` — what the driver's `.code` / `tryto` ops now run). -/
+
+/-- Tie A: the literal arguments of `exponent_out_of_range(…)` at the four call sites are the exits of
+    `into_f32_internal` / `into_f64_internal` the model carries, and the decision text is the regenerated one -/
+theorem fbig_to_float_range_test_regenerated :
+    into32.infExp = Dashu.Gen.Conv.to_f32_range_max_exp ∧ into32.zeroExp = Dashu.Gen.Conv.to_f32_range_min_exp ∧
+    into64.infExp = Dashu.Gen.Conv.to_f64_range_max_exp ∧ into64.zeroExp = Dashu.Gen.Conv.to_f64_range_min_exp ∧
+    (∀ (r : FRepr) (a b : Int), exponentOutOfRange r a b =
+      (if r.signif = 0 then none else if r.exp ≥ a then some true
+       else if r.exp < 0 ∧ r.exp < b - (bitLen r.signif.natAbs : Int) then some false else none)) := by
+  refine ⟨by decide, by decide, by decide, by decide, ?_⟩
+  intro r a b
+  unfold exponentOutOfRange Dashu.Gen.Conv.exponent_out_of_range
+  by_cases h : r.signif = 0 <;> simp [h]
+
+/-- **the range test is unobservable in base 2** — `FBig::<R,2>::to_f32` (every mode), `Repr::<2>::to_f32`: with the
+    test in front, the conversion returns bit for bit (value AND flag) what the general path returns, for every
+    normalised input; so every theorem above about `fbigToFloat into32` is a theorem about the code as it is. -/
+theorem fbig_to_f32_range_exit_unobservable (m : Float.Mode) (c : Coarse) (hc : CoarseSound c) (s e : Int)
+    (hodd : s % 2 = 1) : fbigToFloatCode into32 m c ⟨s, e⟩ = fbigToFloat into32 m c ⟨s, e⟩ :=
+  fbigToFloatCode_eq into32 into32_compat (by decide) (by decide) m c hc s e hodd
+
+/-- the same for `FBig::<_,2>::to_f64` / `Repr::<2>::to_f64` -/
+theorem fbig_to_f64_range_exit_unobservable (m : Float.Mode) (c : Coarse) (hc : CoarseSound c) (s e : Int)
+    (hodd : s % 2 = 1) : fbigToFloatCode into64 m c ⟨s, e⟩ = fbigToFloat into64 m c ⟨s, e⟩ :=
+  fbigToFloatCode_eq into64 into64_compat (by decide) (by decide) m c hc s e hodd
+
+/-- … and for `TryFrom<FBig<R,2>> / TryFrom<Repr<2>> for f32, f64` (they call `to_f32 / to_f64`); zero is never decided -/
+theorem fbig_try_to_float_range_exit_unobservable (c : Coarse) (hc : CoarseSound c) (s e : Int) (hodd : s % 2 = 1) :
+    fbigTryToFloatCode into32 c ⟨s, e⟩ = fbigTryToFloat into32 c ⟨s, e⟩ ∧
+    fbigTryToFloatCode into64 c ⟨s, e⟩ = fbigTryToFloat into64 c ⟨s, e⟩ ∧
+    (∀ (m : Float.Mode) (e0 : Int), fbigToFloatCode into32 m c ⟨0, e0⟩ = fbigToFloat into32 m c ⟨0, e0⟩ ∧
+      fbigToFloatCode into64 m c ⟨0, e0⟩ = fbigToFloat into64 m c ⟨0, e0⟩) :=
+  ⟨fbigTryToFloatCode_eq into32 into32_compat (by decide) (by decide) c hc s e hodd,
+   fbigTryToFloatCode_eq into64 into64_compat (by decide) (by decide) c hc s e hodd,
+   fun m e0 => ⟨fbigToFloatCode_zero into32 m c e0, fbigToFloatCode_zero into64 m c e0⟩⟩
+
+/-- the test DOES decide (non-vacuity, and the inputs of the repaired defect): `(2^60−1)·2^(isize::MAX−7)` → `+∞` with
+    `AddOne`; `−1·2^(isize::MIN)` → `−0` with `NoOp`; `3·2^127` is left to the general path — computed without any
+    exponent arithmetic beyond two comparisons -/
+theorem fbig_to_float_range_exit_decides :
+    rangeExit into64 ⟨2 ^ 60 - 1, 2 ^ 63 - 1 - 7⟩ = some (0x7ff0000000000000, some .AddOne) ∧
+    rangeExit into32 ⟨-1, -(2 ^ 63)⟩ = some (0x80000000, some .NoOp) ∧
+    rangeExit into32 ⟨3, 127⟩ = none ∧ rangeExit into32 ⟨-3, 128⟩ = some (0xff800000, some .SubOne) ∧
+    rangeExit into64 ⟨1, -1128⟩ = none ∧ rangeExit into64 ⟨1, -1129⟩ = some (0, some .NoOp) := by
+  decide +kernel
+
+/-- **the decided overflow is the REQUIRED result in every base** (`B ≥ 2`: 2, 3, 10, 16, …), every mode, both formats:
+    when the range test answers `Some(true)` the code returns `±∞` with `AddOne` / `SubOne`, and the specification —
+    ONE rounding of the exact rational value `s·B^e` — is `±∞` flagged above / below the exact value.  (This is also why
+    the driver may evaluate the specification at a clamped exponent on the overflow side: it does not depend on `e`.) -/
+theorem fbig_to_float_range_overflow_is_required (B : Nat) (hB : 2 ≤ B) (mode : Conv.Mode) (s e : Int) (hs : s ≠ 0) :
+    (exponentOutOfRange ⟨s, e⟩ into32.infExp into32.zeroExp = some true →
+      rangeExit into32 ⟨s, e⟩ = some (if s < 0 then (Ieee.binary32.signBit + Ieee.binary32.infBits, some .SubOne)
+                                      else (Ieee.binary32.infBits, some .AddOne)) ∧
+      ieeeRoundRat .binary32 mode (floatAsRat B s e).1 (floatAsRat B s e).2 =
+        ((if s < 0 then Ieee.binary32.signBit else 0) + Ieee.binary32.infBits, Flag.pos.flipIf (decide (s < 0)))) ∧
+    (exponentOutOfRange ⟨s, e⟩ into64.infExp into64.zeroExp = some true →
+      rangeExit into64 ⟨s, e⟩ = some (if s < 0 then (Ieee.binary64.signBit + Ieee.binary64.infBits, some .SubOne)
+                                      else (Ieee.binary64.infBits, some .AddOne)) ∧
+      ieeeRoundRat .binary64 mode (floatAsRat B s e).1 (floatAsRat B s e).2 =
+        ((if s < 0 then Ieee.binary64.signBit else 0) + Ieee.binary64.infBits, Flag.pos.flipIf (decide (s < 0)))) :=
+  ⟨fun h => rangeExit_over_required into32 into32_compat B hB mode s e hs h,
+   fun h => rangeExit_over_required into64 into64_compat B hB mode s e hs h⟩
+
+-- non-vacuity: a decimal and a ternary float beyond the range are decided
+example : exponentOutOfRange ⟨7, 128⟩ into32.infExp into32.zeroExp = some true ∧
+    exponentOutOfRange ⟨-1, 2 ^ 63 - 1⟩ into64.infExp into64.zeroExp = some true := by decide +kernel
+
+/-- **the decided underflow is the REQUIRED result in every base** for the modes `HalfEven` (every `to_f64`, `Repr::to_f32`,
+    `FBig<HalfEven>::to_f32`), `HalfAway` and `Zero`: when the range test answers `Some(false)` the code returns `±0` with
+    `NoOp`, and the specification — ONE rounding of the exact rational value `s·B^e` — is `±0`, flagged toward zero.
+    (Driver's exponent clamp, underflow side: justified for these modes.) -/
+theorem fbig_to_float_range_underflow_is_required (B : Nat) (hB : 2 ≤ B) (mode : Conv.Mode)
+    (hm : mode = .halfEven ∨ mode = .halfAway ∨ mode = .zero) (s e : Int) (hs : s ≠ 0) :
+    (exponentOutOfRange ⟨s, e⟩ into32.infExp into32.zeroExp = some false →
+      rangeExit into32 ⟨s, e⟩ = some ((if s < 0 then Ieee.binary32.signBit else 0), some .NoOp) ∧
+      ieeeRoundRat .binary32 mode (floatAsRat B s e).1 (floatAsRat B s e).2 =
+        ((if s < 0 then Ieee.binary32.signBit else 0), Flag.neg.flipIf (decide (s < 0)))) ∧
+    (exponentOutOfRange ⟨s, e⟩ into64.infExp into64.zeroExp = some false →
+      rangeExit into64 ⟨s, e⟩ = some ((if s < 0 then Ieee.binary64.signBit else 0), some .NoOp) ∧
+      ieeeRoundRat .binary64 mode (floatAsRat B s e).1 (floatAsRat B s e).2 =
+        ((if s < 0 then Ieee.binary64.signBit else 0), Flag.neg.flipIf (decide (s < 0)))) :=
+  ⟨fun h => rangeExit_under_required into32 into32_compat B hB mode hm s e hs h,
+   fun h => rangeExit_under_required into64 into64_compat B hB mode hm s e hs h⟩
+
+example : exponentOutOfRange ⟨7, -176 - 1⟩ into32.infExp into32.zeroExp = some false ∧
+    exponentOutOfRange ⟨-1, -(2 ^ 63)⟩ into64.infExp into64.zeroExp = some false := by decide +kernel
+
+/-- the modes left out above are left out for a reason (the recorded finding "directed modes not honoured below the normal
+    range" — it is the behaviour of `into_f32_internal`'s own underflow exit, which the range test reproduces): `2^-200`
+    under `Up` must become the least subnormal, flagged above; the code answers `+0`, `NoOp` -/
+theorem fbig_to_float_range_underflow_directed_counterexample :
+    rangeExit into32 ⟨1, -200⟩ = some (0, some .NoOp) ∧
+    ieeeRoundRat .binary32 .up (floatAsRat 2 1 (-200)).1 (floatAsRat 2 1 (-200)).2 = (1, .pos) := by
   decide +kernel
 
 end Dashu.Props.C06
